@@ -131,7 +131,17 @@ static const std::vector<std::pair<std::string, std::string>>& repl_menu()
 }
 static const std::vector<std::string>& pair_menu() { static const std::vector<std::string> v = {"-1", "0", "2", "1000000000", "NA"}; return v; }
 
-struct Mut { std::string kind, title, content, desc, keysuffix; };
+// class of a token of the VALID file: count-token (unsigned integer literal), value-token (other number or NA), name-token (anything else)
+static std::string token_class(const std::string& w)
+{
+  if (!w.empty() && w.find_first_not_of("0123456789") == std::string::npos) return "count-token";
+  if (w == "NA") return "value-token";
+  char* end = nullptr;
+  (void)strtod(w.c_str(), &end);
+  if (end != w.c_str() && *end == '\0') return "value-token";
+  return "name-token";
+}
+struct Mut { std::string kind, title, content, desc, fk; };   // fk = fault kind used in the finding key (a function of the input only)
 
 // number of mutations of each family for a parsed text
 struct Plan
@@ -160,9 +170,9 @@ struct Plan
   bool make(size_t i, Mut& m) const
   {
     const std::string& t = P->text;
-    if (i < nPrefix) { m = {"truncate", titleAt(i), t.substr(0, i), "prefix of " + std::to_string(i) + " bytes"}; return true; }
+    if (i < nPrefix) { m = {"truncate", titleAt(i), t.substr(0, i), "prefix of " + std::to_string(i) + " bytes", "truncated"}; return true; }
     i -= nPrefix;
-    if (i < nGarbage) { m = {"truncate-garbage", titleAt(i), t.substr(0, i) + "x9", "prefix of " + std::to_string(i) + " bytes + 'x9'"}; return true; }
+    if (i < nGarbage) { m = {"truncate-garbage", titleAt(i), t.substr(0, i) + "x9", "prefix of " + std::to_string(i) + " bytes + 'x9'", "truncated"}; return true; }
     i -= nGarbage;
     if (i < nTok)
     {
@@ -170,7 +180,7 @@ struct Plan
       const auto& r = repl_menu()[i % repl_menu().size()];
       std::string orig = t.substr(k.beg, k.end - k.beg);
       if (orig == r.first) return false;
-      m = {"token-" + r.second, k.title, replace(t, k.beg, k.end, r.first), "token '" + orig + "' (line " + std::to_string(k.line + 1) + ") replaced by '" + (r.first.size() > 20 ? "<10 kB of 9>" : r.first) + "'"};
+      m = {"token-" + r.second, k.title, replace(t, k.beg, k.end, r.first), "token '" + orig + "' (line " + std::to_string(k.line + 1) + ") replaced by '" + (r.first.size() > 20 ? "<10 kB of 9>" : r.first) + "'", token_class(orig) + "=" + r.second};
       return true;
     }
     i -= nTok;
@@ -180,8 +190,8 @@ struct Plan
       auto [b, e] = P->lines[l];
       std::string line = t.substr(b, e - b);
       size_t eol = e < t.size() ? e + 1 : e;
-      if (op == 0) { m = {"line-delete", P->lineTitle[l], t.substr(0, b) + t.substr(eol), "line " + std::to_string(l + 1) + " deleted: '" + line + "'"}; return true; }
-      if (op == 1) { m = {"line-duplicate", P->lineTitle[l], t.substr(0, eol) + line + "\n" + t.substr(eol), "line " + std::to_string(l + 1) + " duplicated: '" + line + "'"}; return true; }
+      if (op == 0) { m = {"line-delete", P->lineTitle[l], t.substr(0, b) + t.substr(eol), "line " + std::to_string(l + 1) + " deleted: '" + line + "'", "line-deleted"}; return true; }
+      if (op == 1) { m = {"line-duplicate", P->lineTitle[l], t.substr(0, eol) + line + "\n" + t.substr(eol), "line " + std::to_string(l + 1) + " duplicated: '" + line + "'", "line-duplicated"}; return true; }
       if (op == 2)
       {
         if (l + 1 >= P->lines.size()) return false;
@@ -189,13 +199,13 @@ struct Plan
         std::string line2 = t.substr(b2, e2 - b2);
         if (line2 == line) return false;
         size_t eol2 = e2 < t.size() ? e2 + 1 : e2;
-        m = {"line-swap", P->lineTitle[l], t.substr(0, b) + line2 + "\n" + line + "\n" + t.substr(eol2), "lines " + std::to_string(l + 1) + "," + std::to_string(l + 2) + " swapped"};
+        m = {"line-swap", P->lineTitle[l], t.substr(0, b) + line2 + "\n" + line + "\n" + t.substr(eol2), "lines " + std::to_string(l + 1) + "," + std::to_string(l + 2) + " swapped", "lines-swapped"};
         return true;
       }
       if (!P->lineHasValues[l]) return false;
       size_t h = line.find('#');
       std::string nl = h == std::string::npos ? line + " 7" : line.substr(0, h) + " 7 " + line.substr(h);
-      m = {"extra-value", P->lineTitle[l], t.substr(0, b) + nl + t.substr(e), "one extra value appended to line " + std::to_string(l + 1) + ": '" + line + "'"};
+      m = {"extra-value", P->lineTitle[l], t.substr(0, b) + nl + t.substr(e), "one extra value appended to line " + std::to_string(l + 1) + ": '" + line + "'", "extra-value"};
       return true;
     }
     i -= nLine;
@@ -207,7 +217,7 @@ struct Plan
     const std::string &ra = pair_menu()[rr / mm], &rb = pair_menu()[rr % mm];
     std::string s = replace(t, kb.beg, kb.end, rb);   // later token first: offsets of the earlier one stay valid
     s = replace(s, ka.beg, ka.end, ra);
-    m = {"token-pair", ka.title + "+" + kb.title, s, "tokens on lines " + std::to_string(ka.line + 1) + "," + std::to_string(kb.line + 1) + " replaced by '" + ra + "','" + rb + "'"};
+    m = {"token-pair", ka.title + "+" + kb.title, s, "tokens on lines " + std::to_string(ka.line + 1) + "," + std::to_string(kb.line + 1) + " replaced by '" + ra + "','" + rb + "'", "token-pair"};
     return true;
   }
 };
@@ -292,10 +302,12 @@ static std::string db_use(Db* db, int wfd)
 }
 
 // ---------------------------------------------------------------------------------------------
-struct Outcome { std::string result, signature, stage, detail, site, exc, raw; };   // signature "" = allowed outcome
+struct Outcome { std::string result, signature, stage, detail, site, exc, raw; double cpu = 0., loadcpu = -1.; bool killed = false, memory = false; };   // signature "" = allowed outcome
 static Outcome judge(const ChildResult& r, double cpu)
 {
   Outcome o;
+  o.cpu = cpu;
+  o.killed = r.kind != ChildResult::EXITED;
   o.raw = r.data.substr(0, 6000);
   o.stage = "start";
   std::istringstream is(r.data);
@@ -342,6 +354,8 @@ static Outcome judge(const ChildResult& r, double cpu)
   }
   bool xcpu = r.kind == ChildResult::SIGNALED && (r.code == SIGXCPU || r.code == SIGKILL);
   bool memory = memcap || (r.kind == ChildResult::EXITED && (r.code == 93 || r.code == 96)) || asan == "out-of-memory" || asan == "allocation-size-too-big" || asan == "requested" || asan == "calloc-overflow";
+  o.loadcpu = loadcpu;
+  o.memory = memory;
   if (!memory && asan.empty() && o.result == "ok-object" && inv.empty() && loadcpu >= 0. && loadcpu <= 2.0 && (r.kind == ChildResult::TIMEOUT || xcpu || cpu > 2.0))
   {
     // the loader returned within the CPU budget; the budget was exhausted by the harness inspecting a large (valid) object
@@ -361,6 +375,18 @@ static Outcome judge(const ChildResult& r, double cpu)
   return o;
 }
 
+// Coarse outcome class used in the finding key. It must not depend on where the crash happened, on whether ASan or the kernel
+// noticed it first, on the heap layout, or on which limit (CPU / memory) fired first.
+static std::string outcome_class(const std::string& sig)
+{
+  if (sig.empty()) return "";   // allowed outcome
+  if (sig == "resource-exhaustion" || sig == "uncaught-exception" || sig == "exit-96") return "exception-or-exhaustion";
+  if (sig == "SIGFPE" || sig == "asan-FPE") return "arithmetic-signal";
+  if (sig.rfind("asan-", 0) == 0 || sig.rfind("SIG", 0) == 0) return "memory-error";
+  if (sig.rfind("invalid-object-", 0) == 0) return "invalid-object:" + sig.substr(15);
+  if (sig.find_first_not_of("0123456789") == std::string::npos) return "memory-error";   // other signal number
+  return "abnormal-exit";   // no-result, incomplete-<stage>, exit-N
+}
 static double children_cpu()
 {
   struct rusage ru; getrusage(RUSAGE_CHILDREN, &ru);
@@ -423,7 +449,7 @@ static void fault_run(Ctx& C, const std::string& cls, const std::string& textId,
     if (!o.signature.empty())
     {
       // the loader already fails on the VALID file: its faults cannot be attributed, one finding for the class
-      if (mine) { C.eval(); C.outcome("valid-file-" + o.signature); C.violation(cls + ":valid-file:" + o.signature, "loading the unmodified valid file " + textId + " ends with " + o.signature + " (stage " + o.stage + (o.site.empty() ? "" : ", in " + o.site) + ")", g_tl + std::to_string(myid)); }
+      if (mine) { C.eval(); C.outcome("valid-file-" + outcome_class(o.signature)); C.violation(cls + ":valid-file:" + outcome_class(o.signature), "loading the unmodified valid file " + textId + " ends with " + o.signature + " (stage " + o.stage + (o.site.empty() ? "" : ", in " + o.site) + ")", g_tl + std::to_string(myid)); }
       counter += nmut;
       return;
     }
@@ -442,9 +468,22 @@ static void fault_run(Ctx& C, const std::string& cls, const std::string& textId,
     // A 10 kB column/variable name makes std::regex (name matching inside the library) overflow the stack when the object is
     // displayed or saved; an object built through the API with such a name does exactly the same, so this says nothing about
     // the loader: excluded and counted.
-    if (o.signature == "SIGSEGV" && o.site.empty() && o.stage != "load" && o.raw.find("std::__detail::_Executor") != std::string::npos)
+    if (m.kind == "token-longtoken" && m.fk.rfind("name-token", 0) == 0 && o.result == "ok-object" && o.stage != "load" && outcome_class(o.signature) == "memory-error")
     { C.skip(); C.outcome("excluded: std::regex stack overflow on a 10 kB name (stage " + o.stage + ")"); continue; }
     C.eval();
+    // timing sensitivity: a case is charged for CPU above 2 s (hard limit 3 s). Cases that END ON THEIR OWN between 0.5 s and 3 s
+    // could change verdict on a slower / faster machine: they are counted and noted so that the menus can be kept away from them.
+    {
+      // CPU charged to the loader: up to the end of the load when it returned, else everything
+      double rc = o.loadcpu >= 0. ? o.loadcpu : o.cpu;
+      const char* band = rc < 0.1 ? "<0.1s" : rc < 0.5 ? "0.1-0.5s" : rc < 2.0 ? "0.5-2s" : "above-2s";
+      C.outcome(std::string("cpu-band ") + band);
+      // the verdict could flip on a machine of different speed only if (a) an ALLOWED outcome needed 0.5-2 s, or (b) the case is
+      // charged for CPU alone (no memory limit, no exception) although it ended on its own (2-3 s)
+      bool sensitive = (o.signature.empty() && rc >= 0.5) || (o.signature == "resource-exhaustion" && !o.memory && !o.killed);
+      if (sensitive)
+      { C.outcome("cpu-band TIMING-SENSITIVE (ended on its own after 0.5-3 s)"); C.note("timing-sensitive case " + cls + " " + g_tl + std::to_string(myid) + ": " + m.desc + " loader-cpu=" + fmt(rc)); }
+    }
     if (C.verbose) fprintf(stderr, "---- child output ----\n%s\n----------------------\n", o.raw.c_str());
     if (o.signature.empty())
     {
@@ -453,13 +492,10 @@ static void fault_run(Ctx& C, const std::string& cls, const std::string& textId,
     }
     else
     {
-      C.outcome(m.kind + " -> VIOLATION " + o.signature);
-      // mechanism = crash site (first library frame of the report) when there is one; else class + signature
-      std::string key = !o.site.empty() ? "site:" + o.site + ":" + o.signature : cls + ":" + o.signature;
-      // binary files: + header field and class of the injected value (the same site fails for different reasons). For resource
-      // exhaustion the site is dropped there: whether the CPU limit (no stack) or the memory cap (stack) fires first depends on timing.
-      if (!m.keysuffix.empty() && o.signature == "resource-exhaustion") key = cls + ":" + o.signature;
-      key += m.keysuffix;
+      C.outcome(m.kind + " -> VIOLATION " + outcome_class(o.signature));
+      // finding key = <class/format>:<kind of fault applied>:<coarse outcome class>; the crash site, the ASan summary, the signal
+      // and the limit that fired are in the text only (they depend on heap layout, timing and symbolizer availability)
+      std::string key = cls + ":" + m.fk + ":" + outcome_class(o.signature);
       if (!o.exc.empty()) o.stage += ", exception: " + o.exc;
       C.violation(key, cls + " loader: " + m.desc + " of valid file " + textId + " -> " + o.signature + " (stage " + o.stage + (o.site.empty() ? "" : ", in " + o.site) + "). Faulty content: " + show_content(m.content, binary), g_tl + std::to_string(myid));
     }
@@ -494,7 +530,7 @@ struct BinPlan
   std::string fieldAt(size_t pos) const { for (auto& f : fields) if (pos >= f.off && pos < f.off + (size_t)f.size) return f.name; return pos < headerLen ? "header" : "payload"; }
   bool make(size_t i, Mut& m) const
   {
-    if (i < nPrefix()) { m = {"truncate", fieldAt(i), data.substr(0, i), "prefix of " + std::to_string(i) + " bytes (cut in " + fieldAt(i) + ")", i < headerLen ? ":truncated-header" : ":truncated-payload"}; return true; }
+    if (i < nPrefix()) { m = {"truncate", fieldAt(i), data.substr(0, i), "prefix of " + std::to_string(i) + " bytes (cut in " + fieldAt(i) + ")", i < headerLen ? "truncated-header" : "truncated-payload"}; return true; }
     i -= nPrefix();
     if (i < nField())
     {
@@ -509,7 +545,7 @@ struct BinPlan
       for (int k = 0; k < f.size; k++) c[f.off + k] = (char)((v >> (8 * k)) & 0xff);
       char b[64]; snprintf(b, 64, "%llu -> %llu (0x%llx)", cur, v, v);
       std::string vc = v == 0 ? "zero" : (v & (f.size == 2 ? 0x8000ULL : 0x80000000ULL)) ? "signbit" : v == 0x7fffffffULL ? "intmax" : v >= 65535 ? "65535" : "small";
-      m = {"field", f.name, c, "header field " + f.name + " (offset " + std::to_string(f.off) + ", " + std::to_string(f.size) + " bytes) " + b, ":" + f.name + "=" + vc};
+      m = {"field", f.name, c, "header field " + f.name + " (offset " + std::to_string(f.off) + ", " + std::to_string(f.size) + " bytes) " + b, "header-field:" + f.name + "=" + vc};
       return true;
     }
     i -= nField();
@@ -519,7 +555,7 @@ struct BinPlan
     char b[32]; snprintf(b, 32, "0x%02x -> 0x%02x", (unsigned char)data[pos], nv);
     // replacing the top byte of a field by 0xff sets its sign bit; other byte faults give a positive value
     bool top = false; for (auto& f : fields) if (pos == f.off + (size_t)f.size - 1) top = true;
-    m = {"byte", fieldAt(pos), c, "header byte " + std::to_string(pos) + " (" + fieldAt(pos) + ") " + b, ":" + fieldAt(pos) + "=" + (nv == 0xff && top ? "signbit" : "byte")};
+    m = {"byte", fieldAt(pos), c, "header byte " + std::to_string(pos) + " (" + fieldAt(pos) + ") " + b, "header-byte:" + fieldAt(pos) + "=" + (nv == 0xff && top ? "signbit" : "byte")};
     return true;
   }
 };
